@@ -217,6 +217,10 @@ def _work(seed):
         force.update(objective_kind="nanhole", box=[[-5.0, 5.0], [-5.0, 5.0]], dim=2)
     elif c < 0.6:
         force.update(height=2, engines=[rng.choice(["SEA", "DE"]), "Local"], objective_kind=rng.choice(["plateau", "zero", "sphere"]))
+    elif c < 0.78:
+        # several CMA-ES leaves converging on the same optimum: best fitness values that are almost, but not exactly, equal
+        force.update(height=2, engines=[rng.choice(["SEA", "DE"]), "CMA"], objective_kind="sphere", box_style="sym", cap_evals=4000, gsc={"kind": "MetaepochLimit", "n": 12},
+                     sprout={"kind": "simple", "far": 0.0, "level_limit": 3}, levels_patch=[{"lsc": {"kind": "DontStop"}}, {"lsc": {"kind": "DontStop"}, "gens": 5}], maximize=False)
     spec = gen.gen_spec(seed, **force)
     out, viol = [], []
     order = []
